@@ -71,7 +71,9 @@ theorem pool_refines_stack (ops : List POp) (a : State) : (runPool (a, {}) ops).
 example : runStack [] [.release (.dyn 1), .release (.dyn 2), .alloc 8] = [.dyn 1] := by decide
 
 
-/-! ### ArenaList (PARTIAL: representation predicate, prepend, pop_first, forward walk) -/
+/-! ### ArenaList (first, PARTIAL development: Chain-based predicate, prepend, pop_first, forward walk).
+SUPERSEDED by Lemmas/C18ListPool2.lean (all seven operations, both walks) and Lemmas/C18ListPool3.lean
+(`list_refines_list`); only the heap lemmas `nd_upd`, `size_upd`, `val_*`, `nd_push*` below are reused there. -/
 
 theorem size_upd (h : Heap) (n : Nat) (f : LNode → LNode) : (upd h n f).size = h.size := by
   unfold upd; split <;> simp
